@@ -72,7 +72,7 @@ JEmpty(tn, env, v) ==
 (* bits of local mask field number mi that are implied by explicitly written masked fields *)
 ImpliedBits(t, v, mi) ==
   {t.fields[j].bit : j \in {j \in 1..Len(t.fields) :
-       t.fields[j].mask.k = "field" /\ t.fields[j].mask.i + 1 = mi /\ v[j].p}}
+       t.fields[j].mask.k = "field" /\ t.fields[j].mask.i + 1 = mi /\ IsP(v[j])}}
 MaskImplied(t, v, mi) ==
   LET mv == FieldNat(t, v, mi) IN \A k \in 0..31 : BitSet(mv, k) => k \in ImpliedBits(t, v, mi)
 
@@ -83,9 +83,9 @@ WJFields(t, env, v, m, i, acc) ==
            isMaskField == \E j \in 1..Len(t.fields) : t.fields[j].mask.k = "field" /\ t.fields[j].mask.i + 1 = i
            item ==
              IF IsOpt(f) THEN
-               (IF ~v[i].p THEN <<>>
+               (IF ~IsP(v[i]) THEN <<>>
                 ELSE IF f.isbit THEN << <<f.n, JBool(~(m = "bad-truefalse" /\ ~t.tl2 /\ f.mask.k = "field"))>> >>
-                ELSE << <<f.n, WJ(f.t, cenv, v[i].v, m)>> >>)
+                ELSE << <<f.n, WJ(f.t, cenv, PV(v[i]), m)>> >>)
              ELSE IF m = "nomask" /\ isMaskField /\ MaskImplied(t, v, i) THEN <<>>
              ELSE IF m # "full" /\ JEmpty(f.t, cenv, v[i]) THEN <<>>
              ELSE << <<f.n, WJ(f.t, cenv, v[i], m)>> >>
